@@ -864,3 +864,39 @@ func allDefs(info *types.Info, body ast.Node, id *ast.Ident) []ast.Expr {
 	})
 	return defs
 }
+
+// loopReachesCall: in the body of a loop, the first call accepted by isTarget is
+// reached for every element: it stands under no condition inside the body and no
+// statement in front of it can leave the iteration (continue, break, return,
+// goto). Returns "" when that holds, else the reason.
+func loopReachesCall(info *types.Info, pm map[ast.Node]ast.Node, body *ast.BlockStmt, what string, isTarget func(*ast.CallExpr) bool) string {
+	var call *ast.CallExpr
+	ast.Inspect(body, func(n ast.Node) bool {
+		if cl, ok := n.(*ast.CallExpr); ok && call == nil && isTarget(cl) {
+			call = cl
+		}
+		return true
+	})
+	if call == nil {
+		return "the loop does not call " + what
+	}
+	if g := lexicalGuards(pm, call, body); len(g) > 0 {
+		return what + " is guarded by `" + roleStr(info, g[0].E) + "`"
+	}
+	for _, st := range body.List {
+		inside := false
+		ast.Inspect(st, func(m ast.Node) bool {
+			if m == ast.Node(call) {
+				inside = true
+			}
+			return !inside
+		})
+		if inside {
+			break
+		}
+		if containsBranch(st) {
+			return "a statement in front of " + what + " can skip the element"
+		}
+	}
+	return ""
+}
